@@ -6,6 +6,7 @@ import (
 	"go/token"
 	"go/types"
 	"io"
+	"os"
 	"sort"
 	"strings"
 
@@ -220,6 +221,12 @@ func readAllHelper(p *Program, fn *ssa.Function) (int, bool) {
 		}
 		c, ok := v.(*ssa.Call)
 		if !ok {
+			// io.ReadAll written out: a buffer grown by append, filled only by r.Read(buf[len:cap]) and
+			// returned when Read reports an error (EOF included)
+			if k, ok := readLoopHelper(fn, v); ok && (pi < 0 || pi == k) {
+				pi = k
+				continue
+			}
 			return 0, false
 		}
 		switch calleeName(c) {
@@ -350,7 +357,7 @@ func ruleCTMedia(r *Run) {
 		var namer, registrar *ssa.Function
 		for v := range sl.Slice(ps.MU.Key).Vals {
 			if c, ok := v.(*ssa.Call); ok {
-				if cal := staticCallee(c); cal != nil && p.inModule(cal) {
+				if cal := staticCallee(c); cal != nil && p.inModule(cal) && isStringType(c.Type()) {
 					if _, has := caseConsts(cal, func(string) bool { return true }); has {
 						namer = cal
 						// a wrapper that only hands the format on (an allocation loop around the
@@ -412,6 +419,11 @@ func ruleCTMedia(r *Run) {
 		}
 		// single-table idiom: namer and registrar both read the extension from the same field of the
 		// same package-level table, indexed by the format — agreement by construction
+		if os.Getenv("WZ_DEBUG_CT") != "" {
+			ng, nf, _ := tableExtension(p, namer)
+			rg, rf, _ := tableExtension(p, registrar)
+			fmt.Fprintf(os.Stderr, "ct-media fn=%s namer=%s registrar=%s ng=%v nf=%v rg=%v rf=%v\n", shortName(fn), shortName(namer), shortName(registrar), ng, nf, rg, rf)
+		}
 		if ng, nf, nv := tableExtension(p, namer); ng != nil {
 			if rg, rf, _ := tableExtension(p, registrar); rg == ng && rf == nf {
 				dotted := false
@@ -792,5 +804,267 @@ func tableExtension(p *Program, fn *ssa.Function) (*ssa.Global, *types.Var, ssa.
 		}
 		walk(lk)
 	})
+	if g != nil {
+		return g, fld, val
+	}
+	// the table may be read through a small look-up helper (spec, ok := lookupSpec(format)): the
+	// helper indexes the package-level table by its format parameter and hands the entry back
+	allInstrs(fn, func(in ssa.Instruction) {
+		c, ok := in.(*ssa.Call)
+		if !ok || g != nil {
+			return
+		}
+		cal := staticCallee(c)
+		if cal == nil || cal == fn || !p.inModule(cal) || len(cal.Blocks) == 0 {
+			return
+		}
+		var gl *ssa.Global
+		allInstrs(cal, func(in2 ssa.Instruction) {
+			lk, ok := in2.(*ssa.Lookup)
+			if !ok {
+				return
+			}
+			ld, ok := lk.X.(*ssa.UnOp)
+			if !ok {
+				return
+			}
+			g2, ok := ld.X.(*ssa.Global)
+			if !ok {
+				return
+			}
+			for rt := range rootsOf(lk.Index) {
+				if par, ok := rt.(*ssa.Parameter); ok {
+					if nt, ok := par.Type().(*types.Named); ok && nt.Obj().Name() == "ImageFormat" {
+						// the entry must be what the helper returns
+						for _, ret := range returnsOf(cal) {
+							for i := range ret.Results {
+								if flowsFromLookup(retResult(ret, i), lk, 0) {
+									gl = g2
+								}
+							}
+						}
+					}
+				}
+			}
+		})
+		if gl == nil {
+			return
+		}
+		keyIsFormat := false
+		for _, a := range c.Call.Args {
+			for rt := range rootsOf(a) {
+				if par, ok := rt.(*ssa.Parameter); ok {
+					if nt, ok := par.Type().(*types.Named); ok && nt.Obj().Name() == "ImageFormat" {
+						keyIsFormat = true
+					}
+				}
+			}
+		}
+		if !keyIsFormat {
+			return
+		}
+		seen := map[ssa.Value]bool{}
+		var walk func(v ssa.Value)
+		walk = func(v ssa.Value) {
+			if v == nil || seen[v] || v.Referrers() == nil {
+				return
+			}
+			seen[v] = true
+			for _, u := range *v.Referrers() {
+				switch x := u.(type) {
+				case *ssa.Extract:
+					walk(x)
+				case *ssa.Phi:
+					walk(x)
+				case *ssa.Field:
+					if isStringType(x.Type()) {
+						fv, _ := fieldOfVal(x)
+						if fv != nil && (fld == nil || strings.Contains(strings.ToLower(fv.Name()), "ext")) {
+							g, fld, val = gl, fv, x
+						}
+					} else {
+						walk(x)
+					}
+				case *ssa.Store:
+					if al, ok := x.Addr.(*ssa.Alloc); ok && x.Val == v && al.Referrers() != nil {
+						for _, u2 := range *al.Referrers() {
+							if fa, ok := u2.(*ssa.FieldAddr); ok && fa.Referrers() != nil {
+								for _, u3 := range *fa.Referrers() {
+									if ld2, ok := u3.(*ssa.UnOp); ok && isStringType(ld2.Type()) {
+										fv, _ := fieldOfAddr(fa)
+										if fv != nil && (fld == nil || strings.Contains(strings.ToLower(fv.Name()), "ext")) {
+											g, fld, val = gl, fv, ld2
+										}
+									}
+								}
+							}
+						}
+					}
+				}
+			}
+		}
+		walk(c)
+	})
 	return g, fld, val
+}
+
+// flowsFromLookup: v is the lookup, one of its extracted members, or a phi/local holding them.
+func flowsFromLookup(v ssa.Value, lk *ssa.Lookup, depth int) bool {
+	if v == ssa.Value(lk) {
+		return true
+	}
+	if depth > 6 || v == nil {
+		return false
+	}
+	switch x := v.(type) {
+	case *ssa.Extract:
+		return flowsFromLookup(x.Tuple, lk, depth+1)
+	case *ssa.Phi:
+		for _, e := range x.Edges {
+			if flowsFromLookup(e, lk, depth+1) {
+				return true
+			}
+		}
+	case *ssa.UnOp:
+		if al, ok := x.X.(*ssa.Alloc); ok && al.Referrers() != nil {
+			for _, u := range *al.Referrers() {
+				if st, ok := u.(*ssa.Store); ok && st.Addr == al && flowsFromLookup(st.Val, lk, depth+1) {
+					return true
+				}
+			}
+		}
+	}
+	return false
+}
+
+// readLoopHelper: the []byte value v returned by fn is a buffer that (1) starts as make([]byte, …),
+// (2) is only ever re-sliced, grown by append(buf, <constant>) and handed to the Read method of ONE
+// io.Reader parameter, and (3) is returned only on a path where that Read's error is non-nil — the
+// loop of io.ReadAll.  Returns the index of the reader parameter.
+func readLoopHelper(fn *ssa.Function, v ssa.Value) (int, bool) {
+	seen := map[ssa.Value]bool{}
+	var reads []*ssa.Call
+	okShape := true
+	madeSlice := false
+	var walk func(x ssa.Value, depth int)
+	walk = func(x ssa.Value, depth int) {
+		if x == nil || seen[x] || !okShape {
+			return
+		}
+		seen[x] = true
+		if depth > 40 {
+			okShape = false
+			return
+		}
+		switch y := x.(type) {
+		case *ssa.Phi:
+			for _, e := range y.Edges {
+				walk(e, depth+1)
+			}
+		case *ssa.Slice:
+			walk(y.X, depth+1)
+		case *ssa.MakeSlice:
+			madeSlice = true
+		case *ssa.Call:
+			b, isB := y.Call.Value.(*ssa.Builtin)
+			if !isB || b.Name() != "append" || len(y.Call.Args) != 2 {
+				okShape = false
+				return
+			}
+			// appended elements must be constants (growth only; cut back by the re-slice that follows)
+			for _, e := range varargElems(y.Call.Args[1]) {
+				if _, isC := e.(*ssa.Const); !isC {
+					okShape = false
+				}
+			}
+			walk(y.Call.Args[0], depth+1)
+		default:
+			okShape = false
+		}
+	}
+	walk(v, 0)
+	if !okShape || !madeSlice {
+		return 0, false
+	}
+	// every use of a buffer value is one of: slice, len/cap, phi, append (first arg), return, Read
+	pi := -1
+	var work []ssa.Value
+	for x := range seen {
+		work = append(work, x)
+	}
+	inWork := map[ssa.Value]bool{}
+	for len(work) > 0 {
+		x := work[len(work)-1]
+		work = work[:len(work)-1]
+		refs := x.Referrers()
+		if refs == nil {
+			continue
+		}
+		for _, u := range *refs {
+			switch z := u.(type) {
+			case *ssa.Slice:
+				// a window of the buffer (buf[len(buf):cap(buf)]) handed on: same rules
+				if !seen[z] && !inWork[z] {
+					inWork[z] = true
+					work = append(work, z)
+				}
+			case *ssa.Phi, *ssa.Return, *ssa.DebugRef:
+			case *ssa.Call:
+				if b, isB := z.Call.Value.(*ssa.Builtin); isB {
+					switch b.Name() {
+					case "len", "cap", "append":
+						continue
+					}
+					return 0, false
+				}
+				if z.Call.IsInvoke() && z.Call.Method.Name() == "Read" && len(z.Call.Args) == 1 {
+					par, isPar := z.Call.Value.(*ssa.Parameter)
+					if !isPar {
+						return 0, false
+					}
+					k := paramIndex(fn, par)
+					if pi >= 0 && pi != k {
+						return 0, false
+					}
+					pi = k
+					reads = append(reads, z)
+					continue
+				}
+				return 0, false
+			default:
+				return 0, false
+			}
+		}
+	}
+	if pi < 0 || len(reads) == 0 {
+		return 0, false
+	}
+	// returns of the buffer are guarded by the Read error being non-nil
+	for _, ret := range returnsOf(fn) {
+		if !seen[retResult(ret, 0)] {
+			continue
+		}
+		guarded := false
+		for _, rd := range reads {
+			ev := errValueOf(rd)
+			if ev == nil || ev.Referrers() == nil {
+				continue
+			}
+			for _, u := range *ev.Referrers() {
+				bo, ok := u.(*ssa.BinOp)
+				if !ok || bo.Op != token.NEQ || (!isNilConst(bo.X) && !isNilConst(bo.Y)) || bo.Referrers() == nil {
+					continue
+				}
+				for _, u2 := range *bo.Referrers() {
+					if iff, ok := u2.(*ssa.If); ok && iff.Block().Succs[0].Dominates(ret.Block()) {
+						guarded = true
+					}
+				}
+			}
+		}
+		if !guarded {
+			return 0, false
+		}
+	}
+	return pi, true
 }
